@@ -53,6 +53,8 @@ def structures(k, tag=''):
     # one level of six boxes in one file: with one worker Pool.map ships them in chunks of two
     m6 = Mesh('3d6', 3, (6, 2, 2), [tile((0, 0, 0), (5, 1, 1), [[2, 4], [1], []])])
     p6 = Ref('s' + tag, 3, ['density', 'a', 'volFrac'], m6.ncell0, m6.boxes, layout=[families.random_layout(rnd, 6, 2)], lo=[-0.5, 1.25, 2.0], dx0=[0.5, 0.25, 0.125])
+    # the same six boxes, one binary file each: a tool whose tasks are the binary files gets six tasks (chunks of two with one worker)
+    p6.files6 = Ref('t' + tag, 3, ['density', 'a', 'volFrac'], m6.ncell0, m6.boxes, layout=[[(i, 0) for i in range(6)]], lo=[-0.5, 1.25, 2.0], dx0=[0.5, 0.25, 0.125])
     return p, q, r, chk, p6
 
 
@@ -72,6 +74,9 @@ def runners():
     add('taste', lambda m: bool(m['amr_kitchen.taste.taste'].Taster('plt', nofail=True)))
     add('taste-data', lambda m: bool(m['amr_kitchen.taste.taste'].Taster('plt', nofail=True, binary_data=True, boxes_coordinates=True)))
     add('colander', lambda m: m['amr_kitchen.colander.colander'].Colander(plotfile='plt', output='out', variables=['volFrac', 'density']).strain(), ['out'])
+    # six binary files on the level and a selection without the first field (what a task does to the objects it shares with the other
+    # tasks of its chunk shows only then)
+    add('colander-6-files', lambda m: m['amr_kitchen.colander.colander'].Colander(plotfile='plt6f', output='out', variables=['volFrac', 'a']).strain(), ['out'])
     add('combine', lambda m: m['amr_kitchen.combine.combine'].combine(PC(m)('plt'), PC(m)('plt2'), pltout='out'), ['out'])
     add('chef', lambda m: chef(m, False), ['out'], serial=lambda m: chef(m, True))
     add('mandoline-3d', lambda m: mand(m, 'plt', False).slice(normal=0, pos=0.6, fformat='return'),
@@ -205,6 +210,7 @@ def execute(mods, S, runner, schedule, which='run'):
     fs = SymFS()
     p.write_symfs(fs, '/work/plt')
     p6.write_symfs(fs, '/work/plt6')
+    p6.files6.write_symfs(fs, '/work/plt6f')
     p.write_symfs(fs, '/work/a/plt')
     p6.write_symfs(fs, '/work/b/plt')
     q.write_symfs(fs, '/work/plt2')
@@ -382,6 +388,7 @@ def make_replay(v):
     fs = SymFS()
     p.write_symfs(fs, '/work/plt')
     p6.write_symfs(fs, '/work/plt6')
+    p6.files6.write_symfs(fs, '/work/plt6f')
     p.write_symfs(fs, '/work/a/plt')
     p6.write_symfs(fs, '/work/b/plt')
     q.write_symfs(fs, '/work/plt2')
